@@ -243,53 +243,7 @@ func checkC17(c *Ctx, r *Report) {
 	// connection (rules shared with C10, C13)
 	checkClosureExits(c, r)
 
-	// the command's response value is decoded on every successful call: a reused command
-	// (a sensor reader polling, the SDR walk) must never report the previous response
-	r.Rule("response-always-decoded", "whenever the command has a response layer, every error-free return of SendCommand has decoded the reply's payload into it", 2)
-	for _, sc := range c.sendCommandImpls() {
-		name := c.FnName(sc)
-		cmdParam := sc.Params[len(sc.Params)-1]
-		isResponse := func(p CPath, v ssa.Value) bool {
-			call, ok := p.Resolve(v).(*ssa.Call)
-			return ok && call.Call.IsInvoke() && call.Call.Method.Name() == "Response" && p.Resolve(call.Call.Value) == ssa.Value(cmdParam)
-		}
-		okDec, nDec := true, 0
-		complete := enumPaths(sc, 2, 20000, func(p CPath) {
-			ret, isRet := p.Last().(*ssa.Return)
-			// error-free, or possibly so: only a return known to carry an error is exempt
-			if !isRet || ret.Parent() != sc || len(ret.Results) != 2 || c.errOutcome(sc, p) == 1 {
-				return
-			}
-			// does the path know the command has a response layer?
-			has := false
-			for _, rel := range p.relations() {
-				if rel.Op != token.NEQ {
-					continue
-				}
-				if (isNilConst(rel.Y) && isResponse(p, rel.X)) || (isNilConst(rel.X) && isResponse(p, rel.Y)) {
-					has = true
-				}
-			}
-			if !has {
-				return
-			}
-			nDec++
-			decoded := false
-			for _, in := range p.Instrs() {
-				if cc := asCall(in); cc != nil && cc.IsInvoke() && cc.Method.Name() == "DecodeFromBytes" && isResponse(p, cc.Value) {
-					decoded = true
-				}
-			}
-			if !decoded {
-				okDec = false
-			}
-		})
-		if !complete {
-			r.Unk(name+"|response decoded", sc.Pos(), "too many paths")
-			continue
-		}
-		r.Check(okDec && nDec > 0, name+"|response decoded", sc.Pos(), "decoded on every error-free path that has a response layer", "an error-free return skips decoding the response layer: the command value keeps the fields of an earlier response")
-	}
+	checkResponseAlwaysDecoded(c, r)
 
 	// completion code read after the exchange (same rule as C10.code-from-message-layer)
 	r.Rule("code-after-exchange", "SendCommand reads the completion code after the exchange of the same call returned without error", 2)
@@ -573,4 +527,57 @@ func checkDecoderAssignment(c *Ctx, r *Report, rule string, min int, keep func(*
 		reportAssignment(c, r, k, fn)
 	}
 	return n
+}
+
+// checkResponseAlwaysDecoded (shared with C07: a body shorter than the layer's minimum — an
+// empty one included — is rejected, not skipped; and with C15: a reading is never a stale one).
+func checkResponseAlwaysDecoded(c *Ctx, r *Report) {
+	// the command's response value is decoded on every successful call: a reused command
+	// (a sensor reader polling, the SDR walk) must never report the previous response
+	r.Rule("response-always-decoded", "whenever the command has a response layer, every error-free return of SendCommand has decoded the reply's payload into it", 2)
+	for _, sc := range c.sendCommandImpls() {
+		name := c.FnName(sc)
+		cmdParam := sc.Params[len(sc.Params)-1]
+		isResponse := func(p CPath, v ssa.Value) bool {
+			call, ok := p.Resolve(v).(*ssa.Call)
+			return ok && call.Call.IsInvoke() && call.Call.Method.Name() == "Response" && p.Resolve(call.Call.Value) == ssa.Value(cmdParam)
+		}
+		okDec, nDec := true, 0
+		complete := enumPaths(sc, 2, 20000, func(p CPath) {
+			ret, isRet := p.Last().(*ssa.Return)
+			// error-free, or possibly so: only a return known to carry an error is exempt
+			if !isRet || ret.Parent() != sc || len(ret.Results) != 2 || c.errOutcome(sc, p) == 1 {
+				return
+			}
+			// does the path know the command has a response layer?
+			has := false
+			for _, rel := range p.relations() {
+				if rel.Op != token.NEQ {
+					continue
+				}
+				if (isNilConst(rel.Y) && isResponse(p, rel.X)) || (isNilConst(rel.X) && isResponse(p, rel.Y)) {
+					has = true
+				}
+			}
+			if !has {
+				return
+			}
+			nDec++
+			decoded := false
+			for _, in := range p.Instrs() {
+				if cc := asCall(in); cc != nil && cc.IsInvoke() && cc.Method.Name() == "DecodeFromBytes" && isResponse(p, cc.Value) {
+					decoded = true
+				}
+			}
+			if !decoded {
+				okDec = false
+			}
+		})
+		if !complete {
+			r.Unk(name+"|response decoded", sc.Pos(), "too many paths")
+			continue
+		}
+		r.Check(okDec && nDec > 0, name+"|response decoded", sc.Pos(), "decoded on every error-free path that has a response layer", "an error-free return skips decoding the response layer: the command value keeps the fields of an earlier response")
+	}
+
 }
